@@ -41,6 +41,18 @@ impl HashCtx {
                 let c = &pz.get_parameters()[0].c;
                 Some(c[..t].iter().map(fr_hex).collect::<Vec<_>>().join(" "))
             }
+            // a table of several rows in the order given: Poseidon::<Fr>::from(&rows).hash(inp)
+            "uposeidon_rows" => {
+                let rows: Option<Vec<(usize, usize, usize, usize)>> = w[1].split(',').map(|r| {
+                    let f: Vec<usize> = r.split(':').map(|x| x.parse().ok()).collect::<Option<_>>()?;
+                    if f.len() == 4 { Some((f[0], f[1], f[2], f[3])) } else { None }
+                }).collect();
+                let rows = rows?;
+                let inp: Option<Vec<Fr>> = w[2..].iter().map(|s| parse_fr(s)).collect();
+                let inp = inp?;
+                let pos = Poseidon::<Fr>::from(&rows);
+                Some(match pos.hash(&inp) { Ok(v) => fr_hex(&v), Err(_) => "err".into() })
+            }
             // zerokit_utils::poseidon::Poseidon::<Fr>::from(&[(t, rf, rp, skip)]).hash(inp)
             "uposeidon" => {
                 let p: Option<Vec<usize>> = w[1..5].iter().map(|s| parse_usize(s)).collect();
